@@ -24,6 +24,9 @@ EXTRA.append(N.mkgrid('2.0', [], [('w', []), ('s', [])],
                        (c03._fx(570, 2020, 1, 15, 12, 0, 0), c03._fx(570, 2020, 7, 15, 12, 0, 0)),
                        (c03._fx(-600, 2020, 7, 15, 12, 0, 0), c03._fx(-600, 2020, 1, 15, 12, 0, 0)),
                        (c03._fx(630, 2020, 1, 15, 12, 0, 0), c03._fx(630, 2020, 7, 15, 12, 0, 0))]))
+EXTRA.append(N.mkgrid('2.0', [], [('g', [])],
+                      [(C.BY_NAME['dt:fixed-600 gap'].n,), (C.BY_NAME['dt:fixed-540 gap'].n,), (C.BY_NAME['dt:fixed-480 gap'].n,), (C.BY_NAME['dt:fixed+570 gap'].n,),
+                       (('str', u'astral \U0001f321 text'),), (('uri', u'http://x/\U0001f600/y'),)]))
 ZBASE = list(c03.BASE) + EXTRA
 JBASE = list(c05.BASE) + EXTRA
 
@@ -164,9 +167,10 @@ def run(ctx):
             bounds.append({'source': fmt, 'base_grid': bi, 'max_deviations': dd, 'documents': st.c.get('executions', 0) - before})
     items = []
     for ver in ('2.0', '3.0'):
-        cat = C.for_version(ver) if not ctx.quick else C.for_version(ver, reduced=True)
+        full, reps = C.for_version(ver), C.for_version(ver, reduced=True)
         slots = rt.slots_for(ver) if not ctx.quick else ['cell0', 'gmeta'] + (['lelem', 'ncell'] if ver == '3.0' else [])
         for slot in slots:
+            cat = full if (not ctx.quick or slot == 'cell0') else reps
             for e in cat:
                 for fmt in ('zinc', 'json'):
                     items.append((ver, slot, e.name, fmt))
